@@ -73,7 +73,7 @@ KEY_TEXTS = ['k', 'input: f args=["x"], kwargs=[]', 'output: g #1.result', 'outp
              'recording_metadata', 'py', 'py/', 'py/tuplex', 'json://k', 'null', '1', 'Z', 'z', '퟿', '￿', 'k' * 60,
              'tape_recorder_operation', '\\u00e9', '\\"', '%s', '{0}', 'metadata', '_metadata_', 'x_metadata']
 META_KEYS = ['duration', 'exception', 'operation_class', 'a', 'b', 'é', 'k k', '', 'x"y', '_metadata', 'id', '\U0001F600', 'Z']
-CATEGORIES = ['Op', 'OpB', 'Op_x', 'Service', 'é', 'a b', 'X', 'Op.v2', 'Op.v2.x', 'billing.ops.Invoice']
+CATEGORIES = ['Op', 'OpB', 'Op_x', 'Service', 'é', 'a b', 'X', 'Op.v2', 'Op.v2.x', 'billing.ops.Invoice', 'Batch[Order]', 'svc:op', 'q*x?']
 
 
 def _hex(n):
